@@ -155,6 +155,46 @@ func (g *Gen) near(x d128.Decimal) d128.Decimal {
 	}
 }
 
+// wordCollision: a pair that a comparison confuses if it drops or mixes the 64-bit words of a coefficient:
+// the finer operand is (low word | high word | wrapped product of the coarser one) times 10^gap
+func (g *Gen) wordCollision() (x, y d128.Decimal, ok bool) {
+	top := int64(1 + g.r.Intn(5))
+	low := int64(1 + g.r.Intn(999))
+	if g.r.Intn(2) == 0 {
+		low = int64(g.r.Uint32())
+	}
+	c1 := new(big.Int).Add(new(big.Int).Lsh(big.NewInt(top), 64), big.NewInt(low))
+	gap := 1 + g.r.Intn(33)
+	var base *big.Int
+	switch g.r.Intn(3) {
+	case 0:
+		base = big.NewInt(low)
+	case 1:
+		base = big.NewInt(top)
+	default:
+		base = new(big.Int).Mod(new(big.Int).Mul(c1, pow10(gap)), new(big.Int).Lsh(big.NewInt(1), 128)) // c1 * 10^gap wrapped at 128 bits
+		if base.Cmp(cMax) > 0 {
+			base = new(big.Int).Rsh(base, 15)
+		}
+		e1 := g.r.Intn(200) - 100
+		if base.Sign() == 0 {
+			return x, y, false
+		}
+		neg := g.r.Intn(2) == 0
+		return mk(neg, c1, clampExp(e1+gap)), mk(neg, base, clampExp(e1)), true
+	}
+	c2 := new(big.Int).Mul(base, pow10(gap))
+	if c2.Cmp(cMax) > 0 {
+		return x, y, false
+	}
+	e1 := randExp(g.r)
+	if e1-gap < eMin {
+		e1 = eMin + gap
+	}
+	neg := g.r.Intn(2) == 0
+	return mk(neg, c1, e1), mk(neg, c2, e1-gap), true
+}
+
 func (g *Gen) cmpAll(x, y d128.Decimal) {
 	g.bin2("Cmp", x, y)
 	g.bin2("Cmp", y, x)
@@ -170,9 +210,19 @@ func (g *Gen) cmpAll(x, y d128.Decimal) {
 func genC04(g *Gen) {
 	g.setMode(0)
 	for !g.w.full() {
+		if g.r.Intn(6) == 0 {
+			if a, b, ok := g.wordCollision(); ok {
+				g.cmpAll(a, b)
+				g.cmpAll(b, a)
+			}
+			continue
+		}
 		x := randAny(g.r)
 		if g.r.Intn(3) == 0 {
 			x = mk(g.r.Intn(2) == 0, g.fullCoef(), randExp(g.r))
+		}
+		if g.r.Intn(8) == 0 {
+			x = mk(g.r.Intn(2) == 0, g.boundaryCoef(), randExp(g.r))
 		}
 		// a cluster of near-equal values: every ordered pair is compared (transitivity and antisymmetry are
 		// consequences of each answer being the exact order, which the specification checks per step)
